@@ -192,8 +192,7 @@ class C05Driver(wl.Driver):
                     m.detach_all(e)
                     m.pending.discard(e)
             return
-        if (rec['ghost'] and isinstance(rec['exc'], KeyError)
-                and rec['exc'].args and rec['exc'].args[0] in self.ghost_pending):
+        if rec['ghost'] and isinstance(rec['exc'], KeyError):
             # pinned by the suite: the frame may fail; which of the other
             # pending entities were flushed before the failure is not stated
             self.res.stats['dontcare_ghost_frame'] += 1
@@ -206,8 +205,26 @@ class C05Driver(wl.Driver):
                     m.detach_all(e)
                     m.pending.discard(e)
             rec['ghost_failed'] = True
-            # the invalid mark named by the KeyError was consumed
-            self.ghost_pending.discard(rec['exc'].args[0])
+            # the invalid mark(s) named by the KeyError were consumed; how
+            # the ids are packed into the exception is not stated. If none
+            # can be recognised, one (unknown which) is taken as consumed.
+            named = set()
+
+            def scan(x):
+                try:
+                    if x in self.ghost_pending:
+                        named.add(x)
+                        return
+                except TypeError:
+                    pass
+                if isinstance(x, (list, tuple, set, frozenset)):
+                    for y in x:
+                        scan(y)
+            scan(rec['exc'].args)
+            if named:
+                self.ghost_pending -= named
+            else:
+                self.ghost_pending.pop()
         else:
             m.process()
             self.ghost_pending.clear()
@@ -282,9 +299,12 @@ class C05Driver(wl.Driver):
                                       for y in rec['slice']])
                     return
             if not rec.get('ghost_failed'):
+                # an entity whose flush was interrupted by a raising
+                # on_remove may be finished by a later frame: not judged
                 got = collections.Counter(
                     (x['uid'], repr(x['entity'])) for x in rec['slice']
-                    if x['kind'] == 'remove')
+                    if x['kind'] == 'remove'
+                    and x['entity'] not in self.broken)
                 want = collections.Counter(
                     (uid, repr(ent)) for kind, uid, ent in rec['trans']
                     if kind == 'remove'
